@@ -14,7 +14,7 @@ def describe(tier):
         "positions; ordered selections for <=2 entries, both orders of every 3-subset), every common value from the same alphabet, every "
         "assignment of row-id arrays from %r (3 entries: %r): saved with IndxIO.save and re-read with IndxIO.load. Non-trivial: at least one "
         "entry and the needed index word size differs between the coordinates and the common value, or an empty row-id array is present, "
-        "or arity >= 3. Every seventh case is also saved in another legal representation (NumPy int64 / uint64 / narrowest-unsigned scalars for the common value and the coordinates; read-only, strided and reversed-view row-id arrays). Plus files whose entries have very different lengths: every ordered pair of lengths from %r and triples short/long/short, long/empty/short, short/long/long. "
+        "or arity >= 3. Every seventh case is also saved in another legal representation (NumPy int64 / uint64 / narrowest-unsigned scalars for the common value and the coordinates; read-only, strided and reversed-view row-id arrays). What earlier loads returned must stay what it was while later files are loaded; a live iindex is saved, changed in place and saved again (every array of shape (3,) and (2,2) over three values x every common x every single change). Plus files whose entries have very different lengths: every ordered pair of lengths from %r and triples short/long/short, long/empty/short, short/long/long. "
         "Distinct = distinct (keys, arrays, common)." % (maxn, indx.ALPHA, indx.ROWIDS5, indx.ROWIDS3, indx.MIXED_LENGTHS),
         "bounds": {"arity": [1, 4], "entries": [0, maxn], "alphabet": [str(a) for a in indx.ALPHA]},
         "exhaustive": True,
@@ -23,7 +23,68 @@ def describe(tier):
 
 
 def blocks(tier):
-    return indx.family_blocks(tier) + [("mixed", {"i": i}) for i in range(len(indx.mixed_cases()))]
+    return indx.family_blocks(tier) + [("mixed", {"i": i}) for i in range(len(indx.mixed_cases()))] + [("resave", {"shape": list(sh)}) for sh in ((3,), (2, 2))]
+
+
+def check_resave(shape, acc, only=None):
+    """The entries handed to save are a live iindex: saved, changed in place (update / shift_common / append), saved again - the second file
+    must hold the changed index, and the first load's result (kept alive) must not have moved."""
+    import itertools
+    import os
+
+    from catii.iindexes import iindex
+    from catii.indxio import IndxIO
+
+    from .. import models as M
+
+    def roundtrip(idx, tag):
+        global _RESAVE_SEQ
+        _RESAVE_SEQ += 1
+        path = os.path.join(indx.scratch_dir(), "rs-%d-%d.indx" % (os.getpid(), _RESAVE_SEQ))
+        with open(path, "wb") as f:
+            IndxIO.save(f, idx, idx.common, idx.rowid_dtype)
+        with open(path, "rb") as f:
+            ents, cm, dt = IndxIO.load(f)
+        os.unlink(path)
+        return iindex(ents, cm, tuple(idx.shape))
+
+    for d in M.all_arrays(tuple(shape), range(3)):
+        for common in (0, 1, 2):
+            muts = [("shift_common", v) for v in (0, 1, 2, 3)] + [("update", cell, v) for cell in itertools.product(*[range(e) for e in shape]) for v in (0, 1, 2)] + [("append", v) for v in (0, 1)]
+            for mut in muts:
+                case = {"resave": list(shape), "array": d.tolist(), "common": common, "change": [mut[0]] + [list(x) if isinstance(x, tuple) else x for x in mut[1:]]}
+                if only is not None and case != only:
+                    continue
+                try:
+                    idx = M.build_index(d, common)
+                    first = roundtrip(idx, "first")
+                    exp = d.copy()
+                    if mut[0] == "shift_common":
+                        idx.shift_common(mut[1])
+                    elif mut[0] == "update":
+                        cell, v = mut[1], mut[2]
+                        exp[cell] = v
+                        idx.update({(v,) + tuple(cell[1:]): numpy.array([cell[0]], dtype=numpy.uint32)})
+                    else:
+                        o = numpy.full((1,) + tuple(shape[1:]), mut[1], dtype=numpy.int64)
+                        exp = numpy.concatenate([d, o])
+                        idx.append(M.build_index(o, 2))
+                    second = roundtrip(idx, "second")
+                    got2, got1 = M.read_dense(second).tolist(), M.read_dense(first).tolist()
+                except Exception as e:  # noqa
+                    acc.violation("resave:raised", case, repr(e))
+                    continue
+                if got2 != exp.tolist():
+                    acc.violation("resave:second-file-differs", case, "the index saved after the change loads as %r, expected %r" % (got2, exp.tolist()))
+                elif got1 != d.tolist():
+                    acc.violation("resave:first-result-changed", case, "what the FIRST load returned now reads %r, expected %r" % (got1, d.tolist()))
+                acc.case(("resave", tuple(shape), d.tobytes(), common, repr(mut)), nontrivial=True, outcome=("resave", mut[0]), sample=case)
+
+
+_RESAVE_SEQ = 0
+
+
+_EARLIER = []      # the last few raw results of IndxIO.load, kept alive on purpose
 
 
 def check_case(keys, arrays, common, acc, case=None):
@@ -44,6 +105,17 @@ def check_case(keys, arrays, common, acc, case=None):
     if msg:
         acc.violation("roundtrip:differs", case, msg)
         return
+    # what earlier loads returned must still be what it was (a loader that hands out views of a buffer it re-uses would change it)
+    for ecase, eraw, ekeys, earrays in _EARLIER:
+        for k, a in zip(ekeys, earrays):
+            got = numpy.asarray(eraw[tuple(k)]).tolist() if tuple(k) in eraw else None
+            if got != list(a):
+                acc.violation("roundtrip:earlier-result-changed", dict(case, earlier=ecase), "after this load the row ids an EARLIER load returned for %r read %r instead of %r" % (tuple(k), got, list(a)))
+                _EARLIER.clear()
+                return
+    _EARLIER.append((case if len(str(case)) < 400 else {"summary": str(case)[:300]}, raw, [tuple(k) for k in keys], [list(a) for a in arrays]))
+    if len(_EARLIER) > 4:
+        _EARLIER.pop(0)
     if numpy.dtype(dt) != numpy.dtype(numpy.uint32):
         acc.violation("roundtrip:rowid-dtype", case, "reported row-id dtype %r" % (dt,))
     # the loaded parts rebuild an index equal to the saved one, and it validates if the saved one did
@@ -133,6 +205,9 @@ def nontrivial(keys, arrays, common):
 
 
 def run_block(family, p, acc):
+    if family == "resave":
+        check_resave(tuple(p["shape"]), acc)
+        return
     if family == "mixed":
         lengths = indx.mixed_cases()[p["i"]]
         check_case(indx.mixed_keys(lengths), indx.mixed_arrays(lengths), 3, acc, case={"mixed_lengths": lengths})
@@ -153,12 +228,17 @@ def replay(case, site=None):
     from ..core import Acc
 
     acc = Acc(ID, [], stop_at_first=False)
-    if "repr" in case:
+    if "resave" in case:
+        check_resave(tuple(case["resave"]), acc, only=case)
+    elif "repr" in case:
         check_repr([tuple(k) for k in case["keys"]], case["arrays"], case["common"], case["repr"], acc)
     elif "mixed_lengths" in case:
         lengths = case["mixed_lengths"]
         check_case(indx.mixed_keys(lengths), indx.mixed_arrays(lengths), 3, acc, case=case)
     else:
+        e = case.get("earlier") or {}
+        if "keys" in e:
+            check_case([tuple(k) for k in e["keys"]], e["arrays"], e["common"], acc)
         check_case([tuple(k) for k in case["keys"]], case["arrays"], case["common"], acc)
     for v in acc.violations:
         print("  %s :: %s" % (v["site"], v["detail"]))
